@@ -395,6 +395,16 @@ static std::string run_point(long narena, VgxOut& out, Scn* s, bool fresh, bool 
     int dwc = d->warning[mjWARN_CONTACTFULL].number - w0c, dwe = d->warning[mjWARN_CNSTRFULL].number - w0e;
     if (check_arena(m, d, narena, step, out)) { cls += "X"; break; }
     bool same = d->ncon == dref->ncon && d->nefc == dref->nefc && d->nisland == dref->nisland;
+    if (d->ncon < dref->ncon && !dwc) {
+      out.violation(narena, "contacts dropped without CONTACTFULL warning",
+                    "narena=%ld step %d: ncon %d (ample %d), CONTACTFULL +%d CNSTRFULL +%d", narena, step, d->ncon,
+                    dref->ncon, dwc, dwe);
+    }
+    if (d->ncon == dref->ncon && (d->nefc != dref->nefc || d->nisland != dref->nisland) && !dwe) {
+      out.violation(narena, "constraints/islands dropped without CNSTRFULL warning",
+                    "narena=%ld step %d: nefc %d (ample %d) nisland %d (ample %d), CONTACTFULL +%d CNSTRFULL +%d", narena,
+                    step, d->nefc, dref->nefc, d->nisland, dref->nisland, dwc, dwe);
+    }
     if (!same && !dwc && !dwe) {
       out.violation(narena, "constraint set truncated without CONTACTFULL/CNSTRFULL warning",
                     "narena=%ld step %d: ncon %d (ample %d) nefc %d (ample %d) nisland %d (ample %d), no warning", narena,
